@@ -137,19 +137,67 @@ func c10(p *model.Prog, r *report.Result) {
 	closeFile := p.MethodObj("pkg/hls", "Fragment", "CloseFile")
 	writePl := p.MethodObj("pkg/hls", "Muxer", "writePlaylist")
 	writeRec := p.MethodObj("pkg/hls", "Muxer", "writeRecordPlaylist")
-	cls := model.CallsTo(cf, closeFile)
-	wps := model.CallsTo(cf, writePl)
+	// closeFragment with its same-package helpers inlined (the tail may be split into steps)
+	const cfDepth = 2
+	isCallOf := func(objs ...*types.Func) func(model.DeepInstr) bool {
+		return func(d model.DeepInstr) bool {
+			ci, ok := d.In.(ssa.CallInstruction)
+			if !ok {
+				return false
+			}
+			for _, o := range objs {
+				if model.SameFunc(model.CalleeObj(ci.Common()), o) {
+					return true
+				}
+			}
+			return false
+		}
+	}
+	var cls, wps []model.DeepInstr
+	helpers := map[*ssa.Function]bool{cf: true}
+	model.EachInstrDeep(cf, cfDepth, func(d model.DeepInstr) {
+		helpers[d.Fn] = true
+		if isCallOf(closeFile)(d) {
+			cls = append(cls, d)
+		}
+		if isCallOf(writePl)(d) {
+			wps = append(wps, d)
+		}
+	})
 	if len(cls) != 1 || len(wps) != 1 {
 		r.Bad("C10.R2", fkey(cf, "shape", "close+list"), p.Pos(cf.Pos()), "closeFragment no longer has exactly one CloseFile and one writePlaylist")
 	} else {
-		r.Check(okEdgeDominates(cf, cls[0], wps[0]), "C10.R2", fkey(cf, "order", "close-before-list"), p.InstrPos(wps[0]), "segment listed only after CloseFile succeeded", "a segment can be listed in the playlist before it is completely written and closed")
-		for _, ci := range append(model.CallsTo(cf, writeRec), model.CallsTo(cf, fRemove, fRemoveAll)...) {
-			r.Check(model.InstrDominates(wps[0], ci), "C10.R2", fkey(cf, "order", "list-before-"+model.CalleeObj(ci.Common()).Name()), p.InstrPos(ci), "runs after the live playlist was rewritten", "a segment can be removed (or the record playlist extended) before the live playlist stopped listing it")
+		// the point of closeFragment itself from which the playlist write is reached
+		anchor := wps[0].In
+		if len(wps[0].Chain) > 0 {
+			anchor = wps[0].Chain[0]
 		}
+		okClose := len(cls[0].Chain) == 0 && okEdgeDominates(cf, cls[0].In.(ssa.CallInstruction), anchor)
+		r.Check(okClose, "C10.R2", fkey(cf, "order", "close-before-list"), p.InstrPos(wps[0].In), "segment listed only after CloseFile succeeded", "a segment can be listed in the playlist before it is completely written and closed")
+		model.EachInstrDeep(cf, cfDepth, func(d model.DeepInstr) {
+			if !isCallOf(writeRec, fRemove, fRemoveAll)(d) {
+				return
+			}
+			// no way from the entry to this call that does not pass the playlist write
+			early := model.DeepPathQuery{Root: cf, Depth: cfDepth, Stop: isCallOf(writePl), Target: func(x model.DeepInstr) bool { return x.In == d.In }}.Find()
+			r.Check(early == nil, "C10.R2", fkey(cf, "order", "list-before-"+model.CalleeObj(d.In.(ssa.CallInstruction).Common()).Name()), p.InstrPos(d.In), "runs after the live playlist was rewritten", "a segment can be removed (or the record playlist extended) before the live playlist stopped listing it")
+		})
 	}
-	// nobody else removes segment files
+	// nobody else removes segment files (helpers that only closeFragment's own steps call are
+	// part of it)
+	private := func(fn *ssa.Function) bool {
+		if !helpers[fn] {
+			return false
+		}
+		for _, ed := range p.Callers(fn) {
+			if model.IsLal(ed.Caller.Func) && !helpers[ed.Caller.Func] {
+				return false
+			}
+		}
+		return true
+	}
 	for _, fn := range hlsFns {
-		if fn == cf {
+		if fn == cf || private(fn) {
 			continue
 		}
 		for _, ci := range model.CallsTo(fn, fRemove) {
@@ -284,7 +332,9 @@ func c10(p *model.Prog, r *report.Result) {
 	}
 	r.Check(okD, "C10.R5", fkey(disp, "end", "closeFragment(true)"), p.Pos(disp.Pos()), "Dispose finalises with isLast=true", "Dispose does not close the last segment with the end marker")
 	if len(wps) == 1 {
-		r.Check(len(cf.Params) == 2 && wps[0].Common().Args[1] == ssa.Value(cf.Params[1]), "C10.R5", fkey(cf, "end", "isLast->writePlaylist"), p.InstrPos(wps[0]), "isLast forwarded", "closeFragment does not forward isLast to writePlaylist")
+		// through the helpers' parameters when the write sits in one
+		fwd := wps[0].Resolve(wps[0].In.(ssa.CallInstruction).Common().Args[1])
+		r.Check(len(cf.Params) == 2 && fwd == ssa.Value(cf.Params[1]), "C10.R5", fkey(cf, "end", "isLast->writePlaylist"), p.InstrPos(wps[0].In), "isLast forwarded", "closeFragment does not forward isLast to writePlaylist")
 	}
 	wpFn := p.Method("pkg/hls", "Muxer", "writePlaylist")
 	okE := false
